@@ -300,6 +300,13 @@ def judge(case, ev, out, x):
         text = ' '.join(out['refused'] + out.get('logged', []))
         if not any(c in text for c in culprits):
             viol.append((f'refusal-does-not-name-a-module:{expect_refusal}', f'errors {out["refused"]}; involved modules {sorted(culprits)}'))
+        if expect_refusal != 'cyclic-attachment' and not has_cycle(edges):
+            # nothing is half-initialised twice: also a failing module gets each init call once, its failure is reported once
+            for n in mods:
+                ne = sum(1 for e in ev if e[:2] == ('early', n))
+                ni = sum(1 for e in ev if e[:2] == ('init', n))
+                if ne > 1 or ni > 1:
+                    viol.append((f'refused:initialised-twice:{expect_refusal}', f'module {n}: earlyInit x{ne}, initModule x{ni}; errors {out["refused"]}'))
         return viol
     if expect_refusal is not None:
         return [(f'not-refused:{expect_refusal}', f'the node started although {expect_refusal} ({sorted(culprits)}); events {ev[:12]}')]
@@ -401,6 +408,8 @@ SPECIAL = [
     ('io-declared-last', {'m0': {'cls': 'WithIo', 'io': 'io1'}, 'io1': {'cls': 'Io'}}),
     ('pinata', {'m0': {'cls': 'Poll'}, 'pin': {'cls': 'Pin'}}),
     ('pinata-first', {'pin': {'cls': 'Pin'}, 'm0': {'cls': 'NoPoll', 'p': 1.0}}),
+    ('two-pollers', {'m0': {'cls': 'Poll', 'p': 1.5}, 'm1': {'cls': 'Poll', 'p': 2.5}}),
+    ('three-pollers', {'m0': {'cls': 'Poll'}, 'm1': {'cls': 'Poll', 'a1': 'm0', 'touch': 'init'}, 'm2': {'cls': 'Poll', 'p': 1.0}}),
     ('all-unexported', {'m0': {'cls': 'Poll', 'export': False, 'p': 1.5}, 'm1': {'cls': 'NoPoll', 'export': False}}),
 ]
 
@@ -439,19 +448,34 @@ def shard_fn(shard):
     return part
 
 
-def special_fn(shard):
+def special_root_fn(shard):
+    """default schedule of a special scenario + the first-level prefixes of its schedule tree"""
     from vf.engines import schedx
     name, mods, bound = shard
+    part = core.Part()
+    case = {'kind': 'special', 'name': name, 'modules': mods}
+    _ev, _out, x = run_case(case, part)
+    _ev2, _out2, x2 = execute(case)
+    if x.trace != x2.trace:
+        raise core.Inconclusive(f'C15 special {name}: the default schedule is not deterministic')
+    fb = (2 if bound >= 2 else 1) if bound else 0
+    part.data.append([name, schedx.first_level(x, bound, 0, fb) if bound else []])
+    part.states += 1
+    part.nontrivial += 1
+    part.sample(name + ': ' + describe(case))
+    return part
+
+
+def special_fn(shard):
+    from vf.engines import schedx
+    name, mods, bound, prefix = shard
     part = core.Part()
     case = {'kind': 'special', 'name': name, 'modules': mods}
 
     def ex(pfx):
         _ev, _out, x = run_case(case, part, pfx)
         return x
-    schedx.explore(ex, bound, free_bound=1 if bound else 0)
-    part.states += 1
-    part.nontrivial += 1
-    part.sample(name + ': ' + describe(case))
+    schedx.explore(ex, bound, prefix=prefix, free_bound=(2 if bound >= 2 else 1) if bound else 0)
     return part
 
 
@@ -463,7 +487,15 @@ def run(ctx):
         for lo in range(0, 64, step):
             shards.append((n, slots, lo, lo + step, ctx.tier))
     ctx.pmap(shard_fn, shards, name='graphs')
-    ctx.pmap(special_fn, [(name, mods, 1 if (not quick or len(mods) <= 2) else 0) for name, mods in SPECIAL], name='special')
+    def bound(name, mods):
+        if name == 'two-pollers':
+            return 2          # a poll thread finishing its first round between two startModule calls needs 2 preemptions
+        return 1 if (not quick or len(mods) <= 2) else 0
+    roots = ctx.pmap(special_root_fn, [(name, mods, bound(name, mods)) for name, mods in SPECIAL], name='special_default_schedules')
+    bymods = dict(SPECIAL)
+    shards = [(name, bymods[name], bound(name, bymods[name]), p) for name, prefixes in roots.data for p in prefixes]
+    ctx.total.data.clear()
+    ctx.pmap(special_fn, shards, name='special_schedules')
     ctx.rule = ('graphs: every labelled attachment digraph on n modules (two slots per module for n <= 3, one slot for n = 4; thorough: two '
                 'slots for n = 4) x where attachments are read x export pattern; each built, started (real poll threads under schedx, '
                 'default schedule) and shut down. special: 16 scenarios (typed / missing / optional attachments, failing inits, shared '
